@@ -60,6 +60,9 @@ func gen(seed int64, n int, tier string) []interface{} {
 		}
 		p := javaproj.Gen(r, k%2 == 0)
 		c := Case{Case: fmt.Sprintf("rand-%d-%d", seed, k), Files: p.Files, Layout: p.Layout, Runs: [][]int{}}
+		if k%7 == 1 {
+			c.Via = "cli"
+		}
 		if k%4 == 3 {
 			// a history inside one process: permutations / subsets / repetitions of the selected files
 			var sel []int
